@@ -220,13 +220,19 @@ func (p *Policy) Assemble() ([]bpf.Instruction, error) {
 			group.arch = p.arch
 		}
 
-		groupInsts, err := group.Assemble(p.DefaultAction)
+		// A group that does not match continues with the next group.
+		groupInsts, err := group.assemble(bpf.Jump{Skip: 1})
 		if err != nil {
 			return nil, err
 		}
 
 		instructions = append(instructions, groupInsts...)
 	}
+
+	// No group matched.
+	defaultAction := NewProgram()
+	defaultAction.Ret(p.DefaultAction)
+	instructions = append(instructions, defaultAction.instructions...)
 
 	// Filter out x32 to prevent bypassing blacklists by using the 32-bit ABI.
 	var x32Filter []bpf.Instruction
@@ -242,7 +248,7 @@ func (p *Policy) Assemble() ([]bpf.Instruction, error) {
 	program = append(program, bpf.LoadAbsolute{Off: archOffset, Size: sizeOfUint32})
 
 	// If the loaded arch ID is not equal p.arch.ID, jump to the final Ret instruction.
-	jumpN := len(x32Filter) + len(instructions) - 1
+	jumpN := len(x32Filter) + len(instructions)
 	if jumpN <= 255 {
 		program = append(program, bpf.JumpIf{Cond: bpf.JumpNotEqual, Val: uint32(p.arch.ID), SkipTrue: uint8(jumpN)})
 	} else {
@@ -347,6 +353,14 @@ func (g *SyscallGroup) toSyscallsWithConditions() ([]SyscallWithConditions, erro
 }
 
 func (g *SyscallGroup) Assemble(defaultAction Action) ([]bpf.Instruction, error) {
+	noMatch := NewProgram()
+	noMatch.Ret(defaultAction)
+	return g.assemble(noMatch.instructions[0])
+}
+
+// assemble assembles the group. noMatch is the instruction that is executed when
+// none of the syscalls of the group matches; it is followed by the group's action.
+func (g *SyscallGroup) assemble(noMatch bpf.Instruction) ([]bpf.Instruction, error) {
 	if len(g.Names) == 0 && len(g.NamesWithCondtions) == 0 {
 		return nil, nil
 	}
@@ -364,7 +378,7 @@ func (g *SyscallGroup) Assemble(defaultAction Action) ([]bpf.Instruction, error)
 		syscall.Assemble(&p, action)
 	}
 
-	p.Ret(defaultAction)
+	p.instructions = append(p.instructions, noMatch)
 
 	p.SetLabel(action)
 	p.Ret(g.Action)
